@@ -404,6 +404,36 @@ pub struct Lazy<A> {
     pub _a: std::marker::PhantomData<fn() -> A>,
 }
 
+/// A query macro on the archetype `$N` - one the enclosing query does not match - run from inside
+/// the closure of that query (the macros borrow `world.<archetype>` field-wise, so this is legal).
+macro_rules! site_nested {
+    ($w:ident, $hook:ident, $N:ident) => {
+        if let Some(req) = $hook.nested_req() {
+            match req.kind {
+                0 => {
+                    ecs_iter!($w, |e: &Entity<$N>, d: &EntityDirect<$N>| {
+                        $hook.nested_visit(abits((*e).into_any()), Some((*d).into_any()), <MatchedArchetype as Archetype>::ARCHETYPE_ID).iter()
+                    });
+                    $hook.nested_done(None);
+                }
+                1 => {
+                    ecs_iter_destroy!($w, |e: &EntityAny, _t: &Entity<$N>, d: &EntityDirectAny| {
+                        $hook.nested_visit(abits(*e), Some(*d), <MatchedArchetype as Archetype>::ARCHETYPE_ID).destroy()
+                    });
+                    $hook.nested_done(None);
+                }
+                _ => {
+                    let k = req.key.expect("sim: nested find needs a key");
+                    let r = ecs_find!($w, k, |e: &Entity<$N>, d: &EntityDirect<_>| {
+                        let _ = $hook.nested_visit(abits((*e).into_any()), Some((*d).into_any()), <MatchedArchetype as Archetype>::ARCHETYPE_ID);
+                    });
+                    $hook.nested_done(Some(r.is_some()));
+                }
+            }
+        }
+    };
+}
+
 /// One multi-archetype query site: a fixed parameter list stamped out for all five macros.
 macro_rules! site {
     (
@@ -413,6 +443,7 @@ macro_rules! site {
         dir = $dir:expr,
         cols = [$($cols:expr),*],
         other = $other:expr
+        $(, nested = $N:ident)?
     ) => {
         pub struct $S;
         impl $S {
@@ -420,13 +451,17 @@ macro_rules! site {
                 match mac {
                     QMacro::Iter => {
                         ecs_iter!($w, |$($params)*| {
-                            hook.visit(Visit { matched: <MatchedArchetype as Archetype>::ARCHETYPE_ID, world: None, other: $other, ent: $ent, dir: $dir, cols: &mut [$($cols),*] }).iter()
+                            let st = hook.visit(Visit { matched: <MatchedArchetype as Archetype>::ARCHETYPE_ID, world: None, other: $other, ent: $ent, dir: $dir, cols: &mut [$($cols),*] });
+                            $( site_nested!($w, hook, $N); )?
+                            st.iter()
                         });
                         None
                     }
                     QMacro::IterDestroy => {
                         ecs_iter_destroy!($w, |$($params)*| {
-                            hook.visit(Visit { matched: <MatchedArchetype as Archetype>::ARCHETYPE_ID, world: None, other: $other, ent: $ent, dir: $dir, cols: &mut [$($cols),*] }).destroy()
+                            let st = hook.visit(Visit { matched: <MatchedArchetype as Archetype>::ARCHETYPE_ID, world: None, other: $other, ent: $ent, dir: $dir, cols: &mut [$($cols),*] });
+                            $( site_nested!($w, hook, $N); )?
+                            st.destroy()
                         });
                         None
                     }
@@ -434,22 +469,29 @@ macro_rules! site {
                         // closure returning `()`: From<()> for EcsStepDestroy (always Continue)
                         ecs_iter_destroy!($w, |$($params)*| {
                             let _ = hook.visit(Visit { matched: <MatchedArchetype as Archetype>::ARCHETYPE_ID, world: None, other: $other, ent: $ent, dir: $dir, cols: &mut [$($cols),*] });
+                            $( site_nested!($w, hook, $N); )?
                         });
                         None
                     }
                     QMacro::IterDestroyStep => {
                         // closure returning EcsStep: From<EcsStep> for EcsStepDestroy
                         ecs_iter_destroy!($w, |$($params)*| {
-                            hook.visit(Visit { matched: <MatchedArchetype as Archetype>::ARCHETYPE_ID, world: None, other: $other, ent: $ent, dir: $dir, cols: &mut [$($cols),*] }).iter()
+                            let st = hook.visit(Visit { matched: <MatchedArchetype as Archetype>::ARCHETYPE_ID, world: None, other: $other, ent: $ent, dir: $dir, cols: &mut [$($cols),*] });
+                            $( site_nested!($w, hook, $N); )?
+                            st.iter()
                         });
                         None
                     }
                     QMacro::Find => match key.expect("sim: find needs a key") {
                         Key::A(k) => ecs_find!($w, k, |$($params)*| {
-                            hook.visit(Visit { matched: <MatchedArchetype as Archetype>::ARCHETYPE_ID, world: None, other: $other, ent: $ent, dir: $dir, cols: &mut [$($cols),*] })
+                            let st = hook.visit(Visit { matched: <MatchedArchetype as Archetype>::ARCHETYPE_ID, world: None, other: $other, ent: $ent, dir: $dir, cols: &mut [$($cols),*] });
+                            $( site_nested!($w, hook, $N); )?
+                            st
                         }),
                         Key::DA(k) => ecs_find!($w, k, |$($params)*| {
-                            hook.visit(Visit { matched: <MatchedArchetype as Archetype>::ARCHETYPE_ID, world: None, other: $other, ent: $ent, dir: $dir, cols: &mut [$($cols),*] })
+                            let st = hook.visit(Visit { matched: <MatchedArchetype as Archetype>::ARCHETYPE_ID, world: None, other: $other, ent: $ent, dir: $dir, cols: &mut [$($cols),*] });
+                            $( site_nested!($w, hook, $N); )?
+                            st
                         }),
                         _ => panic!("sim: site find takes dynamic keys only"),
                     },
@@ -672,19 +714,23 @@ pub mod wa {
     site!(S0, WA, w,
         params = [e: &EntityAny, a: &mut CompA],
         ent = abits(*e), dir = None, cols = [ColRef::W(a)],
-        other = Some(&mut w.arch_r as &mut dyn ArchDyn));
+        other = Some(&mut w.arch_r as &mut dyn ArchDyn),
+        nested = ArchR);
     site!(S1, WA, w,
         params = [e: &Entity<_>, d: &EntityDirect<_>, b: &mut CompB],
         ent = abits((*e).into_any()), dir = Some((*d).into_any()), cols = [ColRef::W(b)],
-        other = Some(&mut w.arch_p as &mut dyn ArchDyn));
+        other = Some(&mut w.arch_p as &mut dyn ArchDyn),
+        nested = ArchP);
     site!(S2, WA, w,
         params = [e: &EntityAny, d: &EntityDirectAny, x: &mut OneOf<CompS, CompL>],
         ent = abits(*e), dir = Some(*d), cols = [ColRef::W(x)],
-        other = Some(&mut w.arch_q as &mut dyn ArchDyn));
+        other = Some(&mut w.arch_q as &mut dyn ArchDyn),
+        nested = ArchQ);
     site!(S3, WA, w,
         params = [e: &Entity<ArchT>, d: &EntityDirect<ArchT>, a: &CompA, h: &mut CompH, u: &mut CompU],
         ent = abits((*e).into_any()), dir = Some((*d).into_any()), cols = [ColRef::R(a), ColRef::W(h), ColRef::W(u)],
-        other = Some(&mut w.arch_q as &mut dyn ArchDyn));
+        other = Some(&mut w.arch_q as &mut dyn ArchDyn),
+        nested = ArchQ);
     site!(S4, WA, w,
         params = [e: &EntityAny, d: &EntityDirectAny],
         ent = abits(*e), dir = Some(*d), cols = [],
@@ -692,21 +738,25 @@ pub mod wa {
     site!(S5, WA, w,
         params = [e: &EntityAny, h: &mut CompH],
         ent = abits(*e), dir = None, cols = [ColRef::W(h)],
-        other = Some(&mut w.arch_x as &mut dyn ArchDyn));
+        other = Some(&mut w.arch_x as &mut dyn ArchDyn),
+        nested = ArchX);
     site!(S6, WA, w,
         params = [e: &Entity<_>, z: &CompZ],
         ent = abits((*e).into_any()), dir = None, cols = [ColRef::R(z)],
-        other = Some(&mut w.arch_v as &mut dyn ArchDyn));
+        other = Some(&mut w.arch_v as &mut dyn ArchDyn),
+        nested = ArchV);
 
     site!(S7, WA, w,
         params = [e: &EntityAny, d: &EntityDirectAny, x: &OneOf<CompB, CompL>],
         ent = abits(*e), dir = Some(*d), cols = [ColRef::R(x)],
-        other = Some(&mut w.arch_p as &mut dyn ArchDyn));
+        other = Some(&mut w.arch_p as &mut dyn ArchDyn),
+        nested = ArchP);
 
     site!(S8, WA, w,
         params = [x: &OneOf<CompS, CompU>, d: &EntityDirectAny, e: &Entity<_>, h: &mut CompH],
         ent = abits((*e).into_any()), dir = Some(*d), cols = [ColRef::R(x), ColRef::W(h)],
-        other = Some(&mut w.arch_v as &mut dyn ArchDyn));
+        other = Some(&mut w.arch_v as &mut dyn ArchDyn),
+        nested = ArchV);
     site!(S9, WA, w,
         params = [a: &mut CompA, e: &EntityAny],
         ent = abits(*e), dir = None, cols = [ColRef::W(a)],
@@ -715,7 +765,8 @@ pub mod wa {
     site!(S10, WA, w,
         params = [e: &EntityAny, x: &mut OneOf<CompB, CompL>, h: &mut CompH],
         ent = abits(*e), dir = None, cols = [ColRef::W(x), ColRef::W(h)],
-        other = Some(&mut w.arch_p as &mut dyn ArchDyn));
+        other = Some(&mut w.arch_p as &mut dyn ArchDyn),
+        nested = ArchP);
     // a cfg-disabled parameter behaves as if it had not been written: this site must match
     // exactly what `|e: &EntityAny, a: &mut CompA|` matches (P, Q, T), not only ArchT
     site!(S11, WA, w,
@@ -727,7 +778,8 @@ pub mod wa {
     site!(S12, WA, w,
         params = [e: &EntityAny, x: &OneOf<CompB, CompZ>, y: &mut OneOf<CompS, CompU>],
         ent = abits(*e), dir = None, cols = [ColRef::R(x), ColRef::W(y)],
-        other = Some(&mut w.arch_p as &mut dyn ArchDyn));
+        other = Some(&mut w.arch_p as &mut dyn ArchDyn),
+        nested = ArchP);
 
     world_spec!(WA, "WA",
         archs = [(0, ArchP, arch_p), (1, ArchQ, arch_q), (2, ArchR, arch_r), (3, ArchT, arch_t), (4, ArchV, arch_v), (5, ArchX, arch_x)],
@@ -814,7 +866,8 @@ pub mod w16 {
     site!(S0, W16, w,
         params = [e: &EntityAny, d: &EntityDirectAny, a: &mut Kaa, p: &mut Kap],
         ent = abits(*e), dir = Some(*d), cols = [ColRef::W(a), ColRef::W(p)],
-        other = Some(&mut w.arch_one as &mut dyn ArchDyn));
+        other = Some(&mut w.arch_one as &mut dyn ArchDyn),
+        nested = ArchOne);
     site!(S1, W16, w,
         params = [e: &EntityAny, d: &EntityDirectAny],
         ent = abits(*e), dir = Some(*d), cols = [],
@@ -883,7 +936,8 @@ pub mod wf {
     site!(S0, WF, w,
         params = [e: &EntityAny, d: &EntityDirectAny, z: &mut CompZ],
         ent = abits(*e), dir = Some(*d), cols = [ColRef::W(z)],
-        other = Some(&mut w.arch_u as &mut dyn ArchDyn));
+        other = Some(&mut w.arch_u as &mut dyn ArchDyn),
+        nested = ArchU);
     site!(S1, WF, w,
         params = [e: &Entity<_>, b: &mut CompB],
         ent = abits((*e).into_any()), dir = None, cols = [ColRef::W(b)],
@@ -895,12 +949,14 @@ pub mod wf {
     site!(S3, WF, w,
         params = [y: &CompY, d: &EntityDirect<_>, e: &EntityAny, a: &mut CompA],
         ent = abits(*e), dir = Some((*d).into_any()), cols = [ColRef::R(y), ColRef::W(a)],
-        other = Some(&mut w.arch_zf as &mut dyn ArchDyn));
+        other = Some(&mut w.arch_zf as &mut dyn ArchDyn),
+        nested = ArchZF);
 
     site!(S4, WF, w,
         params = [e: &EntityAny, d: &EntityDirectAny, s: &mut CompS7, a: &CompA32, p: &mut CompP12],
         ent = abits(*e), dir = Some(*d), cols = [ColRef::W(s), ColRef::R(a), ColRef::W(p)],
-        other = Some(&mut w.arch_yf as &mut dyn ArchDyn));
+        other = Some(&mut w.arch_yf as &mut dyn ArchDyn),
+        nested = ArchYF);
 
     world_spec!(WF, "WF",
         archs = [(0, ArchZF, arch_zf), (1, ArchYF, arch_yf), (2, ArchU, arch_u), (3, ArchOdd, arch_odd)],
@@ -937,7 +993,8 @@ pub mod w32 {
     site!(S1, W32, w,
         params = [e: &Entity<ArchW32>, d: &EntityDirect<ArchW32>, z: &mut Kbf, r: &Kar],
         ent = abits((*e).into_any()), dir = Some((*d).into_any()), cols = [ColRef::W(z), ColRef::R(r)],
-        other = Some(&mut w.arch_w_17 as &mut dyn ArchDyn));
+        other = Some(&mut w.arch_w_17 as &mut dyn ArchDyn),
+        nested = ArchW17);
 
     world_spec!(W32, "W32",
         archs = [(0, ArchW17, arch_w_17), (1, ArchW32, arch_w_32)],
